@@ -2,6 +2,7 @@
 From Coq Require Import List NArith Bool.
 Import ListNotations.
 From L4 Require Import Common.FSRoll Model.Rolling Model.RollingFail Proofs.Rolling Proofs.RollingStream Proofs.RollingFail.
+From L4 Require Import Model.RollingEnc Proofs.RollingEnc.
 Local Open Scope N_scope.
 
 (* At every policy consultation of every history — any trigger (size,
@@ -122,4 +123,48 @@ Example C06_example_failing_roll :
   map (fun n => lookup (files (fst r)) n) [Active; Arch 0] = [None; Some [49;50;51;52;53;54]]
   /\ snd r = [([], false); ([EWrote [49;50]; EConsult 2 2 false], false);
               ([EWrote [51;52;53]; EConsult 5 5 true], true); ([EWrote [54]; EConsult 6 6 true], false)].
+Proof. vm_compute. split; reflexivity. Qed.
+
+(* ---- records whose ENCODER fails half-way (Model/RollingEnc.v) ----
+   The chunks written before the failure stay in the writer's buffer and ARE counted; they reach
+   the file with the next flush.  For every post-processing trigger (the size trigger) and EVERY
+   history of appends, failed-encoder appends and restarts, the size shown to the policy at every
+   consultation is the true size of the active file. *)
+Theorem C06_len_is_disk_size_with_failed_encoders :
+  forall c ops a0 pre,
+    is_pre (trig c) = false ->
+    Forall (fun ev => match ev with EConsult shown disk _ => shown = disk | _ => True end)
+           (snd (erun c ops (einit a0 pre))).
+Proof. intros c ops a0 pre H. exact (len_is_disk_size_with_failed_encoders c ops (einit a0 pre) H (einit_egood a0 pre)). Qed.
+Print Assumptions C06_len_is_disk_size_with_failed_encoders.
+
+(* what that size is: old content, the pending fragments of failed records, the record - each byte once *)
+Theorem C06_failed_fragments_counted_once :
+  forall c chunks e,
+    is_pre (trig c) = false -> EGood e ->
+    EGood (fst (eappend c chunks e)) /\ est_pend (fst (eappend c chunks e)) = [] /\
+    exists v fire,
+      lookup (files (get_writer (est_s e))) Active = Some v /\
+      snd (eappend c chunks e) =
+        [EWrote (concat chunks);
+         EConsult (blen (v ++ est_pend e ++ concat chunks)) (blen (v ++ est_pend e ++ concat chunks)) fire].
+Proof. exact eappend_shown_is_disk. Qed.
+Print Assumptions C06_failed_fragments_counted_once.
+
+(* without a failed record the machine is the appender model above *)
+Theorem C06_no_failure_is_plain_append :
+  forall c chunks s,
+    is_pre (trig c) = false ->
+    est_s (fst (eappend c chunks {| est_s := s; est_pend := [] |})) = fst (append_op c chunks s)
+    /\ snd (eappend c chunks {| est_s := s; est_pend := [] |}) = snd (append_op c chunks s).
+Proof. exact eappend_without_pending_is_append. Qed.
+Print Assumptions C06_no_failure_is_plain_append.
+
+(* limit 6: "ab", a record that fails after "XY" (nothing on disk yet, no consultation), then "c":
+   shown 5 = |ab XY c|, no roll; then "de" makes 7 > 6 and rolls the whole file *)
+Example C06_example_failed_encoder :
+  let c := {| trig := TSize 6; roll_by := Window 0 1 |} in
+  let r := erun c [EAppend [[97;98]]; EFail [[88];[89]]; EAppend [[99]]; EAppend [[100;101]]] (einit true None) in
+  snd r = [EWrote [97;98]; EConsult 2 2 false; EWrote [99]; EConsult 5 5 false; EWrote [100;101]; EConsult 7 7 true]
+  /\ map (fun n => lookup (files (est_s (fst r))) n) [Active; Arch 0] = [None; Some [97;98;88;89;99;100;101]].
 Proof. vm_compute. split; reflexivity. Qed.
